@@ -334,11 +334,11 @@ pub fn stack_mode<const P: usize>() {
     kani::assume(in_alphabet(x));
     let t: [u8; 3] = kani::any();
     let mut buf = [0u8; 7];
-    let pl = if P == 0 { buf[0] = 0x83; buf[1] = 0x9f; buf[2] = 0xff; 3 } else { buf[0] = 0x82; buf[1] = 0x9f; 2 };
+    let pl = if P == 0 { buf[0] = 0x83; buf[1] = 0x9f; buf[2] = 0xff; 3 } else if P == 2 { buf[0] = 0x82; buf[1] = 0x9f; buf[2] = 0xff; 3 } else { buf[0] = 0x82; buf[1] = 0x9f; 2 };
     buf[pl] = x;
     let mut i = 0;
     while i < 3 { kani::assume(t[i] == 0x00 || t[i] == 0xff); buf[pl + 1 + i] = t[i]; i += 1; }
-    let total = pl + 4;
+    let total = if P == 2 { pl + 3 } else { pl + 4 };
     let want = wellformed::<8>(&buf[..total], 0, 8);
     let mut d = Decoder::new(&buf[..total]);
     let r = d.skip();
@@ -376,6 +376,8 @@ macro_rules! stack_harness {
 stack_harness!(c06_stack_mode_definite_top, 0, 11);
 #[cfg(feature = "alloc")]
 stack_harness!(c06_stack_mode_indefinite_top, 1, 10);
+#[cfg(feature = "alloc")]
+stack_harness!(c06_stack_mode_last_sibling, 2, 10);
 
 /// Indefinite-length strings (`5f 41 a 42 b c ff` / the text analogue) and every strict prefix:
 /// one harness per concrete cut point K; skip() is Ok only on the whole item.
